@@ -9,6 +9,26 @@ out = ["## 9. Conditions and bounds as built (generated from harness/*.py)\n",
        "Per property and tier: number of conditions / CrossHair shards (= obligations, each with its vacuity twin), and per",
        "condition the real functions executed and the parameter bounds. `int in [a, b]` are bounded selectors, `[-inf, +inf]`",
        "and `[1, +inf]` are unbounded symbolic integers, `str` symbolic strings.\n"]
+out.append("Measured end-to-end runs on the unchanged tree (16 cores; obligations discharged / total, paths explored, CPU seconds in")
+out.append("CrossHair/z3, wall seconds), from `evidence/<id>.json` (last quick run) and `evidence/thorough/<id>.json` (last thorough")
+out.append("run; where the thorough tier of a property was resized after its run the record shows the larger tier that actually ran;")
+out.append("properties without a thorough record were not run end to end in the thorough tier - for those every input of the")
+out.append("thorough bounds was evaluated once in plain Python against the oracle, without the solver, as a harness sanity check):\n")
+out.append("| property | quick | thorough |")
+out.append("|---|---|---|")
+for i in range(1, 21):
+    pid = "C%02d" % i
+    cells = []
+    for p in (os.path.join(ROOT, "evidence", pid + ".json"), os.path.join(ROOT, "evidence", "thorough", pid + ".json")):
+        if os.path.exists(p):
+            e = json.load(open(p))
+            c = e["coverage"]
+            cells.append("%d/%d, %d paths, %.0f s CPU, %.0f s wall%s" % (c["discharged"], c["obligations"], c["evaluations"],
+                         c.get("solver_cpu_s", 0), e["wall_s"], (", %d inconclusive" % c["inconclusive"]) if c.get("inconclusive") else ""))
+        else:
+            cells.append("-")
+    out.append("| %s | %s | %s |" % (pid, cells[0], cells[1]))
+out.append("")
 for i in range(1, 21):
     pid = "C%02d" % i
     h = importlib.import_module("harness." + pid.lower())
